@@ -193,6 +193,20 @@ def observable(io, so):
     return 'mismatch'
 
 
+def checked(s, timeout_ms):
+    "Solver.check() with a watchdog: z3's own timeout is not honoured inside some preprocessing steps"
+    import threading
+    t = threading.Timer(timeout_ms / 1000.0 + 5, lambda: s.ctx.interrupt())
+    t.daemon = True
+    t.start()
+    try:
+        return str(s.check())
+    except z3.Z3Exception:
+        return 'unknown'
+    finally:
+        t.cancel()
+
+
 # ---- one shape ------------------------------------------------------------------------------------------
 def concrete_check(case, shape, env=None, rng=None):
     "run impl and spec concretely in this process (instrumented modules, no stubs). returns (agree, io, so, env_used)"
@@ -262,21 +276,38 @@ def run_shape(case, shape, tier, seed):
                 s.add(ir.lower_bool(c))
             # reachability twin: the path condition itself must be satisfiable (else the obligation is vacuous)
             if p.pc:
-                rr = str(s.check())
+                rr = checked(s, case.solver_timeout_ms)
                 res['queries'] += 1
                 if rr != 'sat':
                     res['status'] = 'inconclusive'
                     res['reason'] = 'vacuous: path condition %s' % rr
                     continue
             tq = time.time()
-            s.push()
-            s.add(z3.Not(ir.lower_bool(goal)))
-            r = str(s.check())
-            res['queries'] += 1
+            model = None
+            r = None
+            # cheap refutation first: evaluate the goal under a few assignments (a concrete, replayed counterexample is a
+            # definitive refutation; only the solver's unsat can discharge the obligation)
+            pre_env = None
+            if not ir.isc(goal) and not p.pc:
+                for k in range(4):
+                    env = dict((name, rng.getrandbits(bits) if k else 0) for name, bits in src.vars)
+                    try:
+                        if ir.eval1(goal, env, case.uf_concrete) == 0:
+                            pre_env = env
+                            break
+                    except KeyError:
+                        break
+            if pre_env is not None:
+                r = 'refuted-by-evaluation'
+            else:
+                s.push()
+                s.add(z3.Not(ir.lower_bool(goal)))
+                r = checked(s, case.solver_timeout_ms)
+                res['queries'] += 1
+                model = s.model() if r == 'sat' else None
+                s.pop()
             dt = time.time() - tq
             res['solver_s'] += dt
-            model = s.model() if r == 'sat' else None
-            s.pop()
             if len(res['samples']) < 3:
                 res['samples'].append({'obligation': '%s path %d/%d: impl %s must satisfy spec %s' % (
                     case.describe(shape), pi + 1, len(paths), _odesc(io), _odesc(so)),
@@ -294,6 +325,8 @@ def run_shape(case, shape, tier, seed):
                 continue
             # sat or unknown -> look for a concrete, reproducible counterexample
             cands = []
+            if pre_env is not None:
+                cands.append(pre_env)
             if model is not None:
                 cands.append(model_env(model, src.vars))
             found = None
